@@ -301,7 +301,7 @@ func JSONDecoded(s string) string {
 }
 
 // Floats are the values C15 renders.
-var Floats = []float64{0, math.Copysign(0, -1), 1, -1, 2, 1e-320, 5e-324, -5e-324, 1e308, -1e308, math.MaxFloat64, 1e21, 1e22, 123456789012345680, 9007199254740993, 0.1 + 0.2, 0.1, 1.0 / 3, 1e-7, 1.5e-10, 100, 1e6, 3.0000000000000004, 2.5, 1e15, 1e16, 1e17, 4.35, 0.000001, 0.0000001}
+var Floats = []float64{0, math.Copysign(0, -1), 1, -1, 2, 1e-320, 5e-324, -5e-324, 1e308, -1e308, math.MaxFloat64, 1e21, 1e22, 123456789012345680, 9007199254740993, 0.30000000000000004 /* 0.1+0.2 in float64 */, 0.1, 1.0 / 3, 1e-7, 1.5e-10, 100, 1e6, 3.0000000000000004, 2.5, 1e15, 1e16, 1e17, 4.35, 0.000001, 0.0000001}
 
 // SpecialFloats are returned by the database only for some expressions (division, stddev of one value…).
 var SpecialFloats = []float64{math.NaN(), math.Inf(1), math.Inf(-1)}
